@@ -49,6 +49,29 @@ Proof. exact without_hierarchy_check_unsound. Qed.
 Theorem C18_fit : forall ds fi, validate_fit ds fi = Ok <-> WellFormedFit ds fi.
 Proof. exact validate_fit_iff. Qed.
 
+(* the exception raised by fit names what is wrong *)
+Theorem C18_fit_reported_dimension : forall ds fi t p, validate_fit ds fi = Err t p ->
+  (t = FitLength /\ exists l, fi_descs fi = Some l /\ List.length l <> List.length ds) \/
+  (t = MissingMethod /\ exists l f, fi_descs fi = Some l /\ nth_error l p = Some (Some f) /\ f_has_method f = false) \/
+  (t = DataDimension /\ fi_data_cols fi <> List.length ds) \/
+  (exists d, nth_error ds p = Some d /\ ~ wf_fit_dim ds fi p d).
+Proof. exact fit_reported_position. Qed.
+
+(* the entry points below fit, called directly: Distribution.fit (method / weights dispatch of every family) and
+   ConditionalDistribution.__init__ *)
+Theorem C18_fit_dispatch : forall i fam fixed m w, dispatch i fam fixed m w = Ok <-> method_ok fam fixed m w.
+Proof. exact dispatch_iff. Qed.
+Theorem C18_conditional_distribution : forall i d cv, d_conditional_on d = Some cv ->
+  (check_cond i d = Ok <->
+   (forall p, In p (d_dependent d) -> In p (d_params d)) /\
+   (forall p, In p (d_params d) ->
+      (In p (d_dependent d) /\ ~ In p (d_fixed d)) \/ (~ In p (d_dependent d) /\ In p (d_fixed d)))).
+Proof. exact conditional_distribution_iff. Qed.
+
+(* with the hierarchy check in place the separate first-dimension RuntimeError can no longer be reached *)
+Theorem C18_first_dimension_check_unreachable : forall d0, check_keys true 0 d0 = Ok -> check_first d0 = Ok.
+Proof. exact first_conditional_unreachable. Qed.
+
 (* slicer options at construction; reference keyword and number of intervals at slice_ *)
 Theorem C18_slicer_options : forall i s, validate_slicer_init i s = Ok <-> wf_slicer_init s.
 Proof. exact validate_slicer_init_iff. Qed.
@@ -56,8 +79,9 @@ Theorem C18_slicing : forall i s surviving, validate_slice i s surviving = Ok <-
 Proof. exact validate_slice_iff. Qed.
 
 (* evaluation points, for any value type with a finiteness test ... *)
-Theorem C18_evaluation_points : forall (T : Type) (finite : T -> bool) b (pts : list (list T)),
-  validate_points T finite b pts = Ok <-> forall row, In row pts -> forall x, In x row -> finite x = true.
+(* (for each of the entry points pdf, cdf, TransformedModel.pdf / cdf / empirical_cdf) *)
+Theorem C18_evaluation_points : forall (T : Type) (finite : T -> bool) (e : evalpoint) (pts : list (list T)),
+  validate_points T finite e pts = Ok <-> forall row, In row pts -> forall x, In x row -> finite x = true.
 Proof. exact validate_points_iff. Qed.
 (* ... of which the executed binary64 validator is the instance (nan, +inf, -inf are the non-finite values) *)
 Theorem C18_evaluation_points_binary64 :
@@ -65,6 +89,11 @@ Theorem C18_evaluation_points_binary64 :
   is_finite nan = false /\ is_finite infinity = false /\ is_finite neg_infinity = false /\
   is_finite 0%float = true /\ is_finite 0x1.fffffffffffffp+1023%float = true.
 Proof. repeat split; reflexivity. Qed.
+
+(* cumsum_biggest_until rejects arrays with nan *)
+Theorem C18_cumsum_nan : forall (T : Type) (isnan : T -> bool) (cells : list T),
+  validate_no_nan T isnan cells = Ok <-> forall x, In x cells -> isnan x = false.
+Proof. exact (fun T => validate_no_nan_iff T). Qed.
 
 (* HDC: limits of length n_dim made of pairs, deltas scalar or of length n_dim, no nan density *)
 Theorem C18_hdc_grid : forall n limits deltas nan,
@@ -81,6 +110,19 @@ Proof. exact validate_iform_model_iff. Qed.
 Theorem C18_session : forall sc, pipeline sc = None <-> WellFormedScenario sc.
 Proof. exact pipeline_iff. Qed.
 
+(* WHERE: a session raises in the first phase whose input is ill-formed (the inputs of all earlier phases are
+   well-formed, that of the raising phase is not) *)
+Theorem C18_session_first_ill_formed_phase : forall sc ph t p, pipeline sc = Some (ph, t, p) ->
+  phase_result sc ph = Err t p /\ ~ phase_input_ok sc ph /\
+  forall ph', phase_index ph' < phase_index ph -> phase_input_ok sc ph'.
+Proof. exact pipeline_first_phase. Qed.
+
+(* exception classes: those of the property, except four rejections that surface as IndexError / AttributeError *)
+Theorem C18_exception_classes : forall t,
+  In (exc_of t) [ValueError; TypeError; RuntimeError; NotImplementedError] \/
+  In t [EmptyModel; LimitIndex; NoIntervals; MethodNotString].
+Proof. exact exception_classes. Qed.
+
 (* non-vacuity: a well-formed 3-dimensional session is accepted; single malformations are rejected
    with the exception class and by the function the code uses *)
 Definition nv_hs : desc := mkdesc true ExpWeibull [] None false [] [] (Some (mkslicer SWidth 0 [] RCenter 3)).
@@ -89,17 +131,21 @@ Definition nv_v  : desc := mkdesc true Weibull ["gamma"] (Some (CInt 1%Z)) true 
 Definition nv_fit : fit_input :=
   mkfitin (Some [Some (mkfit true MWlsq WQuadratic); None; None]) 3 [7; 10; 10].
 Definition nv_sc : scenario :=
-  mkscenario [nv_hs; nv_tz; nv_v] (Some nv_fit) (Some (false, [[1%float; 2%float; 3%float]]))
+  mkscenario [nv_hs; nv_tz; nv_v] (Some nv_fit) (Some (EvPdf, [[1%float; 2%float; 3%float]]))
              (Some (ReqHDC (Some [LTuple 2; LTuple 2; LTuple 2]) DScalar false)).
 Example C18_nonvacuous :
   pipeline nv_sc = None /\ WellFormedScenario nv_sc /\
   observe (mkscenario [nv_hs; nv_tz; mkdesc true Weibull ["gamma"] (Some (CInt 2%Z)) true ["alpha"; "beta"] [] None]
                       None None None)
     = Some (PhModel, ValueError, GHM_check_dist_descriptions, BadHierarchy, 2) /\
-  observe (mkscenario [nv_hs; nv_tz; nv_v] (Some nv_fit) (Some (false, [[1%float; nan; 3%float]])) None)
+  observe (mkscenario [nv_hs; nv_tz; nv_v] (Some nv_fit) (Some (EvPdf, [[1%float; nan; 3%float]])) None)
     = Some (PhEval, ValueError, GHM_pdf, NonFinitePdf, 0) /\
   observe (mkscenario [nv_hs; nv_tz; nv_v] None None (Some (Req2D COr)))
-    = Some (PhContour, NotImplementedError, C2D_compute COr, Not2D COr, 0).
+    = Some (PhContour, NotImplementedError, C2D_compute COr, Not2D COr, 0) /\
+  dispatch 0 ExpWeibull [] MWlsq WArrayNonFinite = Err WeightsNonFinite 0 /\
+  dispatch 0 ExpWeibull ["delta"] MLsq WCubic = Ok /\
+  validate_no_nan_f [1%float; nan] = Err CumsumNan 0 /\
+  validate_points_f EvEmpiricalCdf [[1%float; infinity]] = Err NonFiniteEmpiricalCdf 0.
 Proof.
   assert (H : pipeline nv_sc = None) by reflexivity.
   split; [exact H|]. split; [apply pipeline_iff; exact H|]. repeat split; reflexivity.
@@ -115,7 +161,14 @@ Print Assumptions C18_slicer_options.
 Print Assumptions C18_slicing.
 Print Assumptions C18_evaluation_points.
 Print Assumptions C18_evaluation_points_binary64.
+Print Assumptions C18_cumsum_nan.
 Print Assumptions C18_hdc_grid.
+Print Assumptions C18_fit_reported_dimension.
+Print Assumptions C18_fit_dispatch.
+Print Assumptions C18_conditional_distribution.
+Print Assumptions C18_first_dimension_check_unreachable.
+Print Assumptions C18_session_first_ill_formed_phase.
+Print Assumptions C18_exception_classes.
 Print Assumptions C18_two_dimensional_only.
 Print Assumptions C18_iform_model_type.
 Print Assumptions C18_session.
